@@ -11,7 +11,10 @@ HUNK_TEXTS = [
     (" -+", 2, 2, True, True), ("-+", 1, 1, True, False), ("-+", 1, 1, False, True), (" +", 5, 5, False, True),
     ("+", 0, 1, False, False), ("-", 1, 0, False, False), ("++", 0, 1, False, True), ("--", 1, 0, True, False),
     ("+", 7, 8, False, False), ("-", 8, 7, False, False), (" - + ", 3, 3, False, False), ("   ", 2, 2, False, False),
+    # a change group that is a pure addition after inner context: the context counts must restart at every change line
+    ("- +", 1, 1, False, False), ("+ -", 1, 1, False, False),
 ]
+CONTEXT_RESET = [("- +", 1, 1, False, False), ("+ -", 1, 1, False, False)]
 DIALECTS = [
     ("plain", b"--- a/f\n+++ b/f\n@@ -1 +1 @@\n-x\n+y\n", 1, 0, b"f", b"f", False, 1, 1),
     ("timestamps", b"--- a/f\t2019-01-16 15:02:37.016021405 +0100\n+++ b/f\t2019-01-16 15:03:08.724512747 +0100\n@@ -1 +1 @@\n-x\n+y\n", 1, 0, b"f", b"f", False, 1, 1),
@@ -49,6 +52,8 @@ def spec(tier, seed):
     short = [t for t in HUNK_TEXTS if len(t[0]) <= 2]
     two_line = [t for t in short if len(t[0]) == 2]
     texts = HUNK_TEXTS if not q else [t for t in short if t[0] in ("+", "-")][:6] + rotate(two_line, seed, 3)
+    if q:
+        texts = texts + CONTEXT_RESET[:1]
     seen = set()
     for t in texts:
         if t in seen:
